@@ -40,10 +40,12 @@ def run(ctx):
         specs = [('simple', [Fraction(r - i) for i in range(r)])]
         if r >= 3: specs.append(('low-rank', [Fraction(5), Fraction(3)] + [Fraction(0)] * (r - 2)))
         if r >= 2: specs.append(('decaying', [Fraction(1, 4 ** i) for i in range(r)]))
+        for rk in range(1, r):
+            specs.append((f'rank-{rk}', [Fraction(rk - i) for i in range(rk)] + [Fraction(0)] * (r - rk)))
         specs.append(('simple-scaled-2^-40', [Fraction(r - i) * Fraction(1, 2 ** 40) for i in range(r)])); specs.append(('simple-scaled-2^27', [Fraction(r - i) * 2 ** 27 for i in range(r)]))
         for cls, sv in specs:
             A, _, _ = spectral_problem(rng, m, n, sv); An = qx.to_np(A); rankA = sum(1 for s in sv if s != 0); nA = fro(An); sc = nA if nA > 0 else 1.0       # every slack is relative to ||A||_F
-            for R in sorted({1, min(2, r), r}):
+            for R in sorted({1, min(2, r), r} | ({rankA + 1} if rankA + 1 <= r else set())):
                 confs = [('rand', dict(oversample=P, n_iter=q)) for P in ((0, 2, 10) if ctx.quick() else (0, 1, 2, 5, 10)) for q in ((0, 1) if ctx.quick() else (0, 1, 2, 3))]
                 confs += [('pass', dict(oversample=P, n_passes=v)) for P in ((0, 3) if ctx.quick() else (0, 1, 3, 10)) for v in ((2, 3) if ctx.quick() else (2, 3, 4, 5))]
                 for kind, kw in confs:
@@ -56,7 +58,10 @@ def run(ctx):
                         if len(vterms) < (300 if ctx.quick() else 3000) and seed == 0: vterms.append(f'({R}%nat, [' + '; '.join(cm.zlit(tok(v)) for v in rec['S']) + '], [' + '; '.join(cm.zlit(tok(v)) for v in s) + '])')
                         nrun += 1
                         l = kw['oversample'] + R
-                        tag = ':rank-deficient-sketch' if (min(l, n) > rankA and m - rankA >= 2) or (min(l, m) > rankA and n - rankA >= 2) else ''
+                        # region in which the unchanged code loses orthonormality (KF-C12; mapped on the pinned tree): the sketch has at least two
+                        # surplus directions beyond rank(A) AND (two or more requested values are zero, OR one is and no power / extra pass is run)
+                        dsk = max(min(l, m), min(l, n)) - rankA; nopower = (kw.get('n_iter', 1) == 0) if kind == 'rand' else (kw.get('n_passes', 3) == 2)
+                        tag = ':rank-deficient-sketch' if dsk >= 2 and (R - rankA >= 2 or (R - rankA == 1 and nopower)) else ''
                         if U.shape != (m, R) or V.shape != (n, R) or len(s) != R: viol(f'C12:{kind}:shape', 'wrong output shapes', inp, (U.shape, len(s), V.shape), ((m, R), R, (n, R))); continue
                         if not (np.all(np.isfinite(quaternion.as_float_array(U))) and np.all(np.isfinite(s))): viol(f'C12:{kind}:nonfinite', 'NaN/inf in the output', inp); continue
                         eu = fro(utils.quat_matmat(utils.quat_hermitian(U), U) - utils.quat_eye(R)); ev = fro(utils.quat_matmat(utils.quat_hermitian(V), V) - utils.quat_eye(R))
